@@ -152,10 +152,13 @@ theorem C04_chunking_independent_from (orig : List Nat) (r : LM) (fuel : Nat) (s
     Dp.iterLM fuel s r = Dp.iterAll fuel s (Dp.bytesOf (orig.drop (r.absPos + r.pos))) :=
   Dp.iterLM_eq orig fuel s r ⟨h.inv, h.eofOk, hl, h.room⟩
 
-/-- **position independence**: behind any number of complete messages (well-formed, accepted where they stand) the iterator
-    continues on the suffix - arbitrary bytes - exactly like an iterator started on the suffix alone with storage framing
-    latched; the messages found there are the same up to renumbering by the number of messages in front -/
-theorem C04_position_independent (rs : List Dp.RawMsg) (fuel : Nat) (s : Dp.ItSt) (d : Dp.Bytes)
+/-- **position independence, for one or more messages in front** (partial: the statement of C04 also compares with *no*
+    message in front, where it is false of the code - see `C04_position_unlatched_witness` below): behind any number ≥ 1 of
+    complete messages (well-formed, accepted where they stand) the iterator continues on the suffix - arbitrary bytes -
+    exactly like an iterator started on the suffix alone with storage framing latched; the messages found there are the
+    same up to renumbering by the number of messages in front. In particular the result does not depend on *how many*
+    messages are in front, as long as there is one. -/
+theorem C04_position_independent_partial (rs : List Dp.RawMsg) (fuel : Nat) (s : Dp.ItSt) (d : Dp.Bytes)
     (hs : s.detSerial = false) (hp : Dp.PrefixOk rs d) (hne : rs ≠ []) :
     (Dp.iterAll (fuel + rs.length) s (Dp.encAll rs ++ d)).1 =
       Dp.msgsOf s.index rs ++ (Dp.iterAll fuel { s with detStorage := true } d).1.map (Dp.Msg.shift rs.length) ∧
@@ -173,6 +176,35 @@ theorem C04_position_independent (rs : List Dp.RawMsg) (fuel : Nat) (s : Dp.ItSt
     exact ⟨a, b, c, by simpa using f, e⟩
   rw [h1, hst, Dp.iterAll_shift]
   exact ⟨rfl, rfl⟩
+
+/-! ### the position clause without a message in front
+
+    The framing is latched by the first message that parses. A suffix read with nothing in front is read unlatched; the same
+    suffix behind a message is read latched - and the two readings differ on suffixes that hold a frame marker inside a
+    truncated or rejected message. This is the behaviour of the unchanged code (the harness replays both witnesses on it: area
+    `pos`); it is recorded as the known finding `C04-position-before-latch`. -/
+
+/-- a truncated storage message (announces 204 bytes, 24 follow) that embeds a complete message -/
+def posWitness1 : Dp.Bytes :=
+  [68,76,84,1, 1,0,0,0, 0,0,0,0, 84,82,85,78, 0x20,1,0,204,
+   68,76,84,1, 1,0,0,0, 0,0,0,0, 69,77,66,68, 0x20,7,0,8, 1,2,3,4]
+
+/-- a serial message (counter 10) that the corrupt-message heuristic rejects - not followed by a marker, contains one - and
+    embeds a storage message (counter 5) and a serial message (11); two more serial messages (12, 13) follow -/
+def posWitness2 : Dp.Bytes :=
+  [68,76,83,1,32,10,0,35,68,76,84,1,1,0,0,0,0,0,0,0,83,84,79,82,32,5,0,6,170,187,68,76,83,1,32,11,0,5,1,0,0,0,0,
+   68,76,83,1,32,12,0,6,2,2,68,76,83,1,32,13,0,7,3,3,3]
+
+/-- **the statement of C04 for "no message in front" is false of the iterator**: read alone, the first suffix yields its embedded
+    message, read with storage framing latched (= behind a message, by `C04_position_independent_partial`) it yields nothing;
+    read alone, the second suffix yields only the embedded storage message, read with serial framing latched the three serial
+    messages -/
+theorem C04_position_unlatched_witness :
+    ((Dp.iterAll 100 { index := 0 } posWitness1).1.length = 1 ∧
+     (Dp.iterAll 100 { index := 0, detStorage := true } posWitness1).1.length = 0) ∧
+    ((Dp.iterAll 200 { index := 0 } posWitness2).1.map (·.std.mcnt) = [5] ∧
+     (Dp.iterAll 200 { index := 0, detSerial := true } posWitness2).1.map (·.std.mcnt) = [11, 12, 13]) := by
+  decide +kernel
 
 /-- non-vacuity: a minimal well-formed message is a complete prefix of a stream that continues with garbage -/
 example : Dp.PrefixOk [{ sh := [0,0,0,0,0,0,0,0,69,67,85,49], htyp := 0x20, mcnt := 0, add := [], payload := [] }] [1, 2, 3, 4, 5] := by
